@@ -185,6 +185,13 @@ func (t *State) SelectUtxos(fromAddr string, totalNeed *big.Int, needLock, exclu
 }
 
 func (t *State) rlockUtxoForSelect() {
+	verifhook.BeforeLock("utxo.rlock", func() bool {
+		if t.utxo.Mutex.TryRLock() {
+			t.utxo.Mutex.RUnlock()
+			return true
+		}
+		return false
+	})
 	t.utxo.Mutex.RLock()
 }
 
